@@ -134,7 +134,7 @@ func init() {
 			}
 			return []string{"release"}
 		},
-		Required: []string{"kind/uint", "kind/uintptr", "kind/int", "kind/bool", "kind/complex128", "kind/string", "kind/slice", "kind/array", "kind/map",
+		Required: []string{"long-run/calls>=100000-per-function", "named/struct-with-more-than-64-fields", "kind/uint", "kind/uintptr", "kind/int", "kind/bool", "kind/complex128", "kind/string", "kind/slice", "kind/array", "kind/map",
 			"kind/ptr", "kind/interface", "kind/struct", "nil/ptr", "nil/interface", "nil/slice", "nil/map", "empty/slice", "empty/map", "nil/argument", "stat/avg", "named", "large-containers", "containers>=4096-elements", "named/embedding", "named/interior-pointers", "rejected-value-then-valid-one", "depth>1000", "same-named-distinct-types"},
 		Families: func(c *mon.Config) []mon.Family {
 			return []mon.Family{
@@ -160,6 +160,7 @@ func init() {
 				{Name: "huge-containers", Env: 3, N: 7 * 3 * c.Pick(1, 6), Run: c20Huge},
 				{Name: "deep-nesting", Env: 1, N: c.Pick(9, 300), Run: c20Deep},
 				{Name: "same-named-types", N: c.Pick(4, 100), Run: c20SameNamed},
+				lrFamily(c20LongRun),
 			}
 		},
 	})
@@ -623,6 +624,24 @@ func c20ScalarPositions(w *mon.W, idx int) {
 
 func c20NamedTypes(w *mon.W, idx int) {
 	g := &c20Gen{r: w.Rng, w: w, ptrs: map[reflect.Type][]reflect.Value{}, psize: map[uintptr]int{}}
+	if idx%8 == 3 {
+		// a struct type with more fields than a machine word has bits (round 11 seeded a per-type field bit mask in a
+		// uint64): 80 fields, the variable-size ones at positions 64..68; by value, by pointer, inside a slice
+		x := int64(w.Rng.Intn(100))
+		wide := lrWide{S64: string(gen.ZooBytes(w.Rng, w.Rng.Intn(30))), S65: make([]int32, w.Rng.Intn(9)), S66: map[string]int8{"a": 1, "bc": 2}, S67: &x, S68: "iface"}
+		// by hand: 10 int64 + 10 int32 + 10 bool + 10 float64 + 10 uint16 + 10 int8 + 4 uint64 + 12 uint8 scalars, then the five parts
+		hand := 10*8 + 10*4 + 10*1 + 10*8 + 10*2 + 10*1 + 4*8 + 12*1 +
+			c20Str + len(wide.S64) + c20Slice + 4*len(wide.S65) + c20Literal(reflect.ValueOf(wide.S66)) + c20Ptr + 8 + c20Literal(reflect.ValueOf(wide.S68)) + c20Literal(reflect.ValueOf(&wide.S68).Elem()) - c20Literal(reflect.ValueOf(wide.S68))
+		if lit := c20Literal(reflect.ValueOf(wide)); lit == hand {
+			c20Observe(w, wide, hand, "struct-of-80-fields")
+			c20Observe(w, &wide, c20Ptr+hand, "struct-of-80-fields")
+			c20Observe(w, []lrWide{wide, {}}, c20Literal(reflect.ValueOf([]lrWide{wide, {}})), "struct-of-80-fields")
+			w.Bucket("named/struct-with-more-than-64-fields")
+		} else {
+			c20Observe(w, wide, lit, "struct-of-80-fields")
+			w.Bucket("named/struct-with-more-than-64-fields")
+		}
+	}
 	// Values of named types with unexported fields are built through their addressable exported
 	// view: we construct them in plain Go and compute the expected size by hand.
 	r := w.Rng
